@@ -154,6 +154,38 @@ def restore(r, comp, inp, typ, ver, ks):
     return steps
 
 
+BLOCKING = {"AwaitAttestation", "AwaitProposal", "AwaitAggAttestation", "AwaitSyncContribution", "Await"}
+
+
+def blocked(r, comp, inp, typ, ver, ks, same=False):
+    """Stores: two to four readers are ALREADY WAITING inside the store (blocked Await* calls) when the datum is handed in, so
+    one hand-in answers all of them (the wake-up path, which need not be the path a reader takes that arrives later); then
+    one of them writes to what it got, the others look again, and later readers are served.  With same=True a second
+    writer re-stores an equal datum while further readers wait (nothing new to wait for: they are answered at once)."""
+    C = COMPS[comp]
+    k = iter(ks)
+    M = lambda h: {"ev": "Mutate", "h": h, "k": next(k)}
+    R = lambda h: {"ev": "Read", "h": h}
+    outs = [p for p in C["out"][typ] if p in BLOCKING]
+    if not outs:
+        return None
+    nb = r.randint(2, 4)
+    same_point = r.random() < 0.7
+    p0 = r.choice(outs)
+    a0 = r.randrange(4)
+    bl = [{"p": p0 if same_point else r.choice(outs), "to": "b%d" % i, "arg": a0 if same_point else r.randrange(4)} for i in range(1, nb + 1)]
+    G = lambda to, of="w1": {"ev": "Get", "p": r.choice(C["out"][typ]), "to": to, "of": of, "arg": r.randrange(4)}
+    steps = [cfg(comp, typ, ver, r.randrange(1000), same=same), {"ev": "New", "h": "w1"},
+             {"ev": "Put", "p": inp, "h": "w1", "blocked": bl}]
+    steps += [M("b1"), R("b2")] + [R("b%d" % i) for i in range(3, nb + 1)]
+    steps += [M("b%d" % nb), R("b1"), G("r1"), R("r1"), M("w1"), R("b2"), G("r2"), M("r1"), R("r2"), R("b%d" % nb)]
+    if same:
+        steps += [{"ev": "New", "h": "w2"}, {"ev": "Put", "p": inp, "h": "w2", "blocked": [{"p": r.choice(outs), "to": "c1", "arg": r.randrange(4)},
+                                                                                   {"p": r.choice(outs), "to": "c2", "arg": r.randrange(4)}]},
+                  M("c1"), R("c2"), M("w2"), G("r3", "w2"), R("c2"), R("b2")]
+    return steps
+
+
 def enumerated(seed, thorough):
     r = vlib.rng(seed, "c18enum")
     out = []
@@ -171,6 +203,10 @@ def enumerated(seed, thorough):
                     for inp in C["in"]:
                         for _ in range(3 * reps):
                             out.append(restore(r, comp, inp, typ, ver, [r.randrange(64) for _ in range(6)]))
+                        for i in range(2 * reps):
+                            b = blocked(r, comp, inp, typ, ver, [r.randrange(64) for _ in range(8)], same=(i % 2 == 1))
+                            if b:
+                                out.append(b)
     return out
 
 
